@@ -114,7 +114,7 @@ def run(rep, tier, seed):
         for u2 in G.UN_KINDS:
             add(("un", u1, ("un", u2, ("id", "i"))), "unary-unary")
     # 3. random trees
-    n_random = 2500 if quick else 40000
+    n_random = 15000 if quick else 200000
     for _ in range(n_random):
         add(gen.tree(rng.choice([2, 3, 3, 4, 5, 6])), "random", modes=(rng.choice(["min", "full"]),),
             noise=rng.random() < 0.3)
@@ -148,7 +148,7 @@ def run(rep, tier, seed):
     rep.sample({"text": items[-1]["text"], "expected_tree": items[-1]["expect"]})
 
     # 4. the same trees inside whole models: as update (expression list) and guard of an edge, no static analysis
-    n_model = 150 if quick else 2500
+    n_model = 1500 if quick else 20000
     mcases = []
     for i in range(n_model):
         t1 = gen.tree(rng.choice([2, 3, 4]))
@@ -190,7 +190,7 @@ def run(rep, tier, seed):
         lit_items.append(("int", t))
     for t in DBL_LITS:
         lit_items.append(("dbl", t))
-    for _ in range(100 if quick else 3000):
+    for _ in range(1500 if quick else 30000):
         # random decimal doubles and integers near the limits
         if rng.random() < 0.5:
             mant = "%d.%s" % (rng.randrange(0, 10 ** rng.randint(1, 18)), "".join(rng.choice("0123456789") for _ in range(rng.randint(1, 25))))
